@@ -450,24 +450,20 @@ func (p *Parser) checkNewVariableNameToken(token lexer.Token, ctx context) error
 }
 
 func (p *Parser) getUsedFuncs(startFunc string) []string {
-	usedFuncs := []string{}
-	startFunc = strings.TrimSpace(startFunc)
+	return p.collectUsedFuncs(strings.TrimSpace(startFunc), []string{})
+}
 
+func (p *Parser) collectUsedFuncs(startFunc string, usedFuncs []string) []string {
 	if usedFuncsTemp, exists := p.usedFuncs[startFunc]; exists {
 		if len(startFunc) > 0 && !slices.Contains(usedFuncs, startFunc) {
 			usedFuncs = append(usedFuncs, startFunc)
 		}
 
 		for _, usedFuncTemp := range usedFuncsTemp {
+			// Functions which have already been collected don't need to be followed again.
 			if !slices.Contains(usedFuncs, usedFuncTemp) {
 				usedFuncs = append(usedFuncs, usedFuncTemp)
-			}
-			usedSubFuncs := p.getUsedFuncs(usedFuncTemp)
-
-			for _, usedSubFunc := range usedSubFuncs {
-				if !slices.Contains(usedFuncs, usedSubFunc) {
-					usedFuncs = append(usedFuncs, usedSubFunc)
-				}
+				usedFuncs = p.collectUsedFuncs(usedFuncTemp, usedFuncs)
 			}
 		}
 	}
